@@ -257,3 +257,108 @@ def _(tier, rng):
                 yield dict(present=list(present), use_defaults=ud, decode=False, fill_missing=False, filler=False)
                 for fm, fl in ((False, False), (True, False), (True, True)):
                     yield dict(present=list(present), use_defaults=ud, decode=True, fill_missing=fm, filler=fl)
+
+
+# ------------------------------------------------------------------ XsdAttributeGroup.raw_decode: the decision taken for ONE present attribute (C03)
+t = Target('attributes.XsdAttributeGroup.raw_decode.per_attribute_body', ['C03'], F, 'XsdAttributeGroup.raw_decode', anchor='for name, value in obj.items()',
+           note='one iteration of the main loop of XsdAttributeGroup.raw_decode, for an arbitrary attribute name: a declared attribute is decoded by its declaration with its value; an undeclared '
+                'name of the XSI namespace by the global declaration when there is one; any other undeclared name by the attribute wildcard with the pair (name, value), and when the group has '
+                'no wildcard it is an error and nothing is decoded; a present attribute whose declaration is prohibited (without a fixed value, not admitted by the wildcard) is an error; exactly '
+                'one decoder runs per accepted attribute, under context.attribute = name, and a non-empty item is reported under that name',
+           assumes=['the mapping lookups (declared names, global attributes, wildcard key None), get_namespace and is_matching are uninterpreted relations of the name; the decoders '
+                    'themselves are under their own contracts (XsdAttribute.raw_decode is exercised by the bounded C03 family, the wildcard by wildcards.XsdAnyAttribute.raw_decode)',
+                    'the enumeration of obj.items() with the absent value-constrained attributes added is covered by the run-time contract attributes.XsdAttributeGroup.raw_decode'])
+
+
+@t.symbolic
+def _(run):
+    ex = run.exec(); st = new_state()
+    declared, gdecl, has_wild, is_xsi, matching, empty = (z3.Bool(n) for n in ('declared', 'globally_declared', 'has_wildcard', 'name_in_xsi_namespace', 'wildcard_matches', 'item_is_empty'))
+    use = z3.String('use'); fixed_none = z3.Bool('fixed_none'); res_none = z3.Bool('validation_only'); name = z3.String('name'); value = z3.String('value')
+    st.objf['decl'] = {'use': VStr(use), 'fixed': VOpt(fixed_none, VStr(z3.String('fixed')))}
+    st.objf['gdecl'] = {'use': VStr(SV('optional')), 'fixed': VOpt(z3.BoolVal(True), VStr(SV('')))}
+    st.objf['wild'] = {}; st.objf['context'] = {'attribute': VOpt(z3.BoolVal(True), VStr(SV('')))}; st.objf['result'] = {}
+    st.env.update(self=OPAQUE, obj=OPAQUE, validation=VStr(z3.String('validation')), context=VObj('context'), name=VStr(name), value=VStr(value), result=VOpt(res_none, VObj('result')))
+    st.ghost.update(errs=0, decoded=(), appended=(), attr_during=())
+    XSI = 'http://www.w3.org/2001/XMLSchema-instance'
+    ex.names[('nm', 'XSI_NAMESPACE')] = VStr(SV(XSI))
+    ex.callees['get_namespace'] = lambda e, s, r, a, k: VStr(z3.If(is_xsi, SV(XSI), SV('urn:other')))
+    ex.callees['_'] = lambda *a: OPAQUE; ex.callees['format'] = lambda *a: OPAQUE
+    orig_binop = ex.e_BinOp
+    ex.e_BinOp = lambda e, s: OPAQUE if isinstance(e.op, ast.Mod) else orig_binop(e, s)
+
+    def verr(e, s, r, a, k): s.ghost['errs'] += 1; return NONE
+    ex.callees['validation_error'] = verr
+    ex.callees['is_matching'] = lambda e, s, r, a, k: VBool(matching)
+
+    def raw_decode(e, s, r, a, k):
+        who = r.name if isinstance(r, VObj) else '?'
+        arg = a[0]; kind = 'pair' if isinstance(arg, VTuple) else 'value' if isinstance(arg, VStr) and z3.eq(arg.t, value) else 'other'
+        cur = s.objf['context']['attribute']
+        s.ghost['decoded'] += ((who, kind),)
+        s.ghost['attr_during'] += ((cur.none, cur.val.t),)
+        return VObj('item')
+    ex.callees['raw_decode'] = raw_decode
+    st.objf['item'] = {}
+    ex.callees['isinstance'] = lambda e, s, r, a, k: VBool(empty) if ast.unparse(a[1]) == 'EmptyType' else (_ for _ in ()).throw(Unsupported('isinstance ' + ast.unparse(a[1])))
+    ex.names['EmptyType'] = OPAQUE
+
+    def append(e, s, r, a, k):
+        tup = a[0]
+        s.ghost['appended'] += ((tup.items[0].t if isinstance(tup, VTuple) and isinstance(tup.items[0], VStr) else None, isinstance(tup, VTuple) and isinstance(tup.items[1], VObj) and tup.items[1].name == 'item'),)
+        return NONE
+    ex.callees['append'] = append
+    orig_sub, orig_cmp = ex.e_Subscript, ex.cmp
+
+    def e_Subscript(e, s):
+        src = ast.unparse(e)
+        if src == 'self._attribute_group[name]': ex.pending_raise.append((z3.Not(declared), VExc(KeyError))); return VObj('decl')
+        if src == 'self.maps.attributes[name]': ex.pending_raise.append((z3.Not(gdecl), VExc(KeyError))); return VObj('gdecl')
+        if src == 'self._attribute_group[None]': ex.pending_raise.append((z3.Not(has_wild), VExc(KeyError))); return VObj('wild')
+        return orig_sub(e, s)
+    ex.e_Subscript = e_Subscript
+    orig_compare = ex.e_Compare
+
+    def e_Compare(e, s):
+        src = ast.unparse(e)
+        if src in ('None in self._attribute_group', 'None in self'): return VBool(has_wild)
+        if src in ('None not in self._attribute_group', 'None not in self'): return VBool(z3.Not(has_wild))
+        return orig_compare(e, s)
+    ex.e_Compare = e_Compare
+    ex.s_For = lambda node, s: ex.block(node.body, s)          # one iteration, for an arbitrary (name, value)
+    orig_assign = ex.assign
+    ex.assign = lambda tg, v, s: [('fall', None, s)] if ast.unparse(tg) == '(name, value)' else orig_assign(tg, v, s)
+    v_ = st.env['validation'].t
+    pre = z3.And(z3.Or(v_ == SV('strict'), v_ == SV('lax'), v_ == SV('skip')), z3.Or(use == SV('optional'), use == SV('required'), use == SV('prohibited')),
+                 z3.Implies(is_xsi, z3.Not(declared)) if False else z3.BoolVal(True))
+    run.inputs.update(declared=declared, globally_declared=gdecl, has_wildcard=has_wild, name_in_xsi_namespace=is_xsi, wildcard_matches=matching, use=use, fixed_none=fixed_none, validation_only=res_none)
+    outs = ex.run(st, pre)
+    # the decision the property states for a present attribute
+    by_decl = declared
+    by_global = z3.And(z3.Not(declared), is_xsi, gdecl)
+    by_wild = z3.And(z3.Not(declared), z3.Not(by_global), has_wild)
+    rejected = z3.And(z3.Not(declared), z3.Not(by_global), z3.Not(has_wild))
+    prohibited = z3.And(declared, use == SV('prohibited'), fixed_none, z3.Or(z3.Not(has_wild), z3.Not(matching)))
+
+    def decoder(kind, v, s):
+        d = s.ghost['decoded']
+        if kind == 'raise': return z3.BoolVal(False)
+        want_none = z3.And(rejected, z3.BoolVal(d == () and kind == 'continue'))
+        want_decl = z3.And(by_decl, z3.BoolVal(d == (('decl', 'value'),)))
+        want_glob = z3.And(by_global, z3.BoolVal(d == (('gdecl', 'value'),)))
+        want_wild = z3.And(by_wild, z3.BoolVal(d == (('wild', 'pair'),)))
+        return z3.Or(want_none, want_decl, want_glob, want_wild)
+
+    def errors(kind, v, s):
+        if kind == 'raise': return z3.BoolVal(False)
+        return z3.IntVal(s.ghost['errs']) == z3.If(rejected, 1, 0) + z3.If(prohibited, 1, 0)
+
+    def reported(kind, v, s):
+        if kind == 'raise': return z3.BoolVal(False)
+        ap = s.ghost['appended']; during = s.ghost['attr_during']; after = s.objf['context']['attribute']
+        if not s.ghost['decoded']: return z3.BoolVal(ap == ())
+        under_name = z3.And(z3.Not(during[0][0]), during[0][1] == name) if len(during) == 1 else z3.BoolVal(False)
+        rep = z3.If(z3.Or(res_none, empty), z3.BoolVal(ap == ()), z3.And(z3.BoolVal(len(ap) == 1 and ap[0][1] is True), (ap[0][0] == name) if len(ap) == 1 and ap[0][0] is not None else z3.BoolVal(False)))
+        return z3.And(under_name, after.none, rep)
+    run.post(ex, outs, pre, {'decoded-by-the-declaration-the-xsi-global-or-the-wildcard-else-rejected': decoder, 'an-error-exactly-for-rejected-and-prohibited-names': errors,
+                             'one-item-reported-under-its-name-while-context-attribute-is-the-name': reported})
